@@ -1424,7 +1424,7 @@ func main() {
 					head = 430
 				}
 				var lens []int
-				firstPrim := si == 0 || (sc.fam == "random" && v == 0)
+				firstPrim := si == 0
 				switch {
 				case cfg.Thorough() && sc.prim:
 					lens = allLens()
@@ -1433,7 +1433,7 @@ func main() {
 				case firstPrim && v == 0:
 					lens = allLens()
 				default:
-					lens = sparseLens(head, 5, 397, si+v)
+					lens = sparseLens(head, 6, 397, si+v)
 				}
 				b, ents, now := scenario(p.id, sc.fam, v, cfg.Seed)
 				gid++
